@@ -83,6 +83,20 @@ Inductive sig := SOne (s : string) | SMany (l : list string).
 Definition one_or_many (l : list string) : option sig :=
   match l with [] => None | [x] => Some (SOne x) | _ => Some (SMany l) end.
 
+(* int(digits, base) also accepts the prefix of the base: "0b" / "0B" in front of binary digits is what a sized-constant token
+   can carry (b is a hexadecimal digit: 1'b0b1 is ONE token and denotes 1'b1); "0x" only inside an escaped identifier *)
+Definition py_int (base : N) (s : string) : option N :=
+  match parse_digits base s with
+  | Some n => Some n
+  | None =>
+      match s with
+      | String z (String p r) =>
+          if Ascii.eqb z "0"%char &&
+             (((base =? 2)%N && Ascii.eqb (lower_ascii p) "b"%char) || ((base =? 16)%N && Ascii.eqb (lower_ascii p) "x"%char))
+          then parse_digits base r else None
+      | _ => None
+      end
+  end.
 Definition sized_const (s : string) : option sig :=
   match split_quote s with
   | [w; rest] =>
@@ -90,7 +104,7 @@ Definition sized_const (s : string) : option sig :=
       | Some width, String b digits =>
           match base_of b with
           | Some base =>
-              match parse_digits base digits with
+              match py_int base digits with
               | Some n => one_or_many (map bit_str (const_bits (N.to_nat width) n))
               | None => None
               end
